@@ -417,6 +417,13 @@ def observe(plan, est, k, seed, probe=None):
         out["obj"] = [float(o) for o in est.objectives_]
         out["best"] = int(est.best_idx_)
     elif cls == "CR":
+        if isinstance(Xp, pd.DataFrame):
+            # first the same rows as a plain array (legal after a fit on a frame), then the frame itself
+            import warnings
+
+            with warnings.catch_warnings():
+                warnings.simplefilter("ignore")
+                out["tr_array"] = take(est.transform(Xp.to_numpy()))
         out["tr"] = take(est.transform(Xp))
         out["beta"] = np.asarray(est.beta_)
         out["mean"] = np.asarray(est.sensitive_mean_)
@@ -651,6 +658,11 @@ def execute(plan, ctx):
                     ctx.fault("query_buffer_mutated_in_place")
                     last_answers = {}
                 probe = shared_probe(plan, fitted_on, ctx)
+                if cls == "CR" and isinstance(probe[0], pd.DataFrame) and edits.next():
+                    # an odd but harmless query first: the same frame with its columns in another order (it may be
+                    # rejected or answered; either way it must not change what later queries return)
+                    ctx.call(est.transform, probe[0].iloc[:, ::-1].copy())
+                    ctx.fault("odd_query_before")
                 okd, d0, _ = ctx.call(observe, plan, est, fitted_on, plan["seeds"][1], probe)
                 if op == "predict_none" and cls in ("TO", "EG", "EGR"):
                     ctx.call(est.predict, probe[0], **probe[1])
